@@ -151,6 +151,7 @@ def main(prop, tier):
                                    'detail': f'history seed {s}: results differ between PYTHONHASHSEED={os.environ.get("PYTHONHASHSEED")} and {hs}'}))
         # ---- violations ---------------------------------------------------------------------
         exit_code = 0
+        hist_harness = []
         known_seen = collections.OrderedDict()
         new = []
         for pl, rec, v in viols:
@@ -165,7 +166,7 @@ def main(prop, tier):
             if f is not None:
                 known_seen.setdefault(f['key'], (f, v, pl))
             else:
-                v = dict(v, case={'id': f"mc-{pl['seed']}", 'seed': pl['seed'], 'engine': 'mcsim', 'force': pl.get('force')})
+                v = dict(v, case={'id': f"mc-{pl['seed']}", 'seed': pl['seed'], 'engine': 'mcsim', 'force': pl.get('force')}, _pl=pl, _rec=rec)
                 mnew.append(v)
         for v in matrix_viols:
             f = D.match_finding(v, findings)
@@ -181,6 +182,18 @@ def main(prop, tier):
             if sig in reported:
                 continue
             reported.add(sig)
+            if v['case'].get('engine') == 'mcsim':
+                # a simulated Monte-Carlo run: an ordinary replay file of the mcsim engine
+                pl_, rec_ = v['_pl'], v['_rec']
+                path = D.write_replay(prop, 'mcsim', dict(pl_, want_log=200), list(rec_.get('choices') or []), rec_, v)
+                ok, out = D.confirm_replay(path)
+                if not ok:
+                    hist_harness.append((pl_['seed'], 'replay_not_reproduced', out[-1500:]))
+                    continue
+                print(f'VIOLATION property={prop} replay={path}')
+                print(f"  {v['cls']}/{v['cause']}: {v['detail']}")
+                exit_code = 1
+                continue
             path = os.path.join(D.VERIF, 'replays', f"{prop}-matrix-{v['case']['id']}.json")
             os.makedirs(os.path.dirname(path), exist_ok=True)
             with open(path, 'w') as fh:
@@ -261,6 +274,7 @@ def main(prop, tier):
         D.write_evidence(prop, tier, base, coverage, ASSUMPTIONS, wall, 0 if exit_code == 0 else len(reported))
         print(f'{prop} {tier}: {evaluations} histories, {tally.c["ops"]} operations, {len(opseqs)} distinct op sequences, '
               f'{tally.c["reports"]} results compared, faults {tally.sub("fault_")}, determinism {det}, {wall:.0f}s')
+        batch.harness_errors.extend(hist_harness)
         if batch.harness_errors:
             for s, kind, detail in batch.harness_errors[:5]:
                 print(f'HARNESS-ERROR {kind} seed={s}: {detail[-1200:]}')
